@@ -1181,22 +1181,11 @@ def make_multi_value_case(dname, D0, oname, D1, usage):
                     ok = same and len(calls) == n0 + 1
                 else:
                     ok = r[0] == "raise" and type(r[1]) is TypeError and len(calls) == n0 + ran
-                if usage == "stacked-accepts-over-returns" and not oks[0]:
-                    # known finding: accepts reads the parameter names off the wrapper returns() made, so a POSITIONAL argument is
-                    # not checked at all. The documented expectation is stated once per declaration (below); per call the reading
-                    # the code implements - the result check alone decides - must hold, so anything else in these cells alarms
-                    unchecked_positional.append(ok)
-                    impl = (r[0] == "ok" and r[1] is vs[1]) if oks[1] else (r[0] == "raise" and type(r[1]) is TypeError)
-                    ctx.require(f"{usage} declared ({','.join('D' + t for t in decl)}) given ({', '.join(ks)}): as implemented, the result "
-                                "check alone decides", impl and len(calls) == n0 + 1, got=str(r)[:160])
-                    continue
+                # (accepts stacked over returns used to read the parameter names off the wrapper returns() made, so a positional
+                # argument was not checked at all; repaired in /repo by 5813670, the cells are held to the documented meaning)
                 ctx.require(f"{usage} declared ({','.join('D' + t for t in decl)}) given ({', '.join(ks)}): "
                             + ("goes through untouched" if expected else "TypeError"), ok, got=str(r)[:160], calls=len(calls) - n0,
                             values="; ".join(MV_KIND_TEXT[k] for k in ks))
-        if unchecked_positional:
-            ctx.require(f"{usage}: a positional argument of the wrong dimension is refused with TypeError before the function runs "
-                        "(every declaration, every value kind)", all(unchecked_positional), refused=sum(unchecked_positional),
-                        of=len(unchecked_positional))
     return Case(f"C19/decorators-multi/{usage}/{dname}~{oname}", h,
                 bounds="symbolic: values and unit scales; enumerated: the dimension pair, the declared dimension of every position, the kind of "
                        "value at every position (all tuples), the usage")
